@@ -605,7 +605,11 @@ pub fn c05_manager_steps(nd: &mut Nondet) {
     hooks::register_scripted_tcp(&mut manager, Box::new(move |call: TransportCall| {
         let world = unsafe { &mut *(wp as *mut TransportWorld) };
         world.calls.push(call);
-        true
+        match call {
+            // the manager handles a refused `negotiate` explicitly (the raw connection may have vanished)
+            TransportCall::Negotiate(_) => { let nd = unsafe { &mut *world.nd }; nd.bool("negotiate_ok") }
+            _ => true,
+        }
     }));
     let local = hooks::local_peer_id(&manager);
     let mut peers: Vec<PeerId> = Vec::new();
@@ -749,10 +753,15 @@ pub fn c05_manager_steps(nd: &mut Nondet) {
                     cover("open.opened");
                     let address = peer_address(attempt.peer, peers[attempt.peer]);
                     let ok = hooks::on_connection_opened(&mut manager, attempt.id, address.clone());
-                    check("c05.opened-attempt-is-routable", ok);
                     let negotiated = world.calls.iter().any(|c| *c == TransportCall::Negotiate(attempt.id));
                     check("c05.opened-attempt-is-negotiated", negotiated);
-                    dialing.push(Attempt { id: attempt.id, peer: attempt.peer, address: Some(address), reported: 0 });
+                    if ok {
+                        dialing.push(Attempt { id: attempt.id, peer: attempt.peer, address: Some(address), reported: 0 });
+                    } else {
+                        // only a refused `negotiate` may fail the handler; the attempt is over and (invariants below)
+                        // the peer must not stay in a dialing state
+                        cover("open.negotiate-refused");
+                    }
                 } else {
                     cover("open.failed");
                     match hooks::on_open_failure(&mut manager, attempt.id) {
@@ -884,6 +893,319 @@ pub fn c05_manager_steps(nd: &mut Nondet) {
         check("c05.pending-map-has-no-orphans", hooks::pending_len(&manager) == raw_open.len() + dialing.len());
     }
     let _ = concluded_without_report;
+}
+
+// ------------------------------------------------------------------------------------------ C05/C06/C07 through the real `TransportManager::next()`
+use litep2p::transport::manager::verif_hooks::{LoopOutcome, ScriptedEvent};
+
+struct LoopWorld { nd: *mut Nondet, calls: Vec<TransportCall>, refused: Vec<TransportCall>, queue: VecDeque<ScriptedEvent> }
+
+/// one dial attempt as the user and the transport see it
+struct Try {
+    id: ConnectionId, peer: usize, addresses: Vec<Multiaddr>,
+    stage: u8,          // 0: open() called, 1: dial()/negotiate() called, 2: concluded by the transport, 3: cancelled by the manager
+    failures: u8,       // failure events the user saw for this attempt
+    announced: bool,    // the user saw this attempt's connection established
+    excused: bool,      // the environment refused negotiate/accept/notify for it (shutdown-type faults)
+    limit_rejected: bool, // its established connection was turned away because the outbound limit was reached meanwhile
+    settled: bool,      // the outcome ledger was checked when the attempt concluded
+}
+struct LoopConn { id: ConnectionId, peer: usize, inbound: bool, live: bool, announced: bool }
+
+/// C05 + C06 + C07 (manager side), end to end through the event loop: user commands enter through the real
+/// `TransportManagerHandle`, transport events through a scripted transport's stream, closures through the
+/// manager's event channel, and the user-visible `TransportEvent`s returned by `TransportManager::next()`
+/// are checked against a ledger of attempts and connections.
+pub fn c05_manager_loop(nd: &mut Nondet) {
+    let max_in = match nd.choose("max_in", 3) { 0 => None, 1 => Some(0usize), _ => Some(1usize) };
+    let max_out = match nd.choose("max_out", 3) { 0 => None, 1 => Some(1usize), _ => Some(2usize) };
+    let mut manager = TransportManagerBuilder::new()
+        .with_connection_limits_config(ConnectionLimitsConfig::default().max_incoming_connections(max_in).max_outgoing_connections(max_out))
+        .build();
+    let faults = param("env_faults", 1) == 1;
+    let mut world = LoopWorld { nd: nd as *mut Nondet, calls: Vec::new(), refused: Vec::new(), queue: VecDeque::new() };
+    let wp = &mut world as *mut LoopWorld as usize;
+    hooks::register_scripted_tcp_with_events(&mut manager,
+        Box::new(move |call: TransportCall| {
+            let world = unsafe { &mut *(wp as *mut LoopWorld) };
+            world.calls.push(call);
+            let nd = unsafe { &mut *world.nd };
+            let ok = match call {
+                TransportCall::Negotiate(_) => if faults { nd.bool("negotiate_ok") } else { true },
+                TransportCall::Accept(_) => if faults { nd.bool("accept_ok") } else { true },
+                TransportCall::Notify(_) => if faults { nd.bool("notify_ok") } else { true },
+                _ => true,
+            };
+            if !ok { world.refused.push(call); }
+            ok
+        }),
+        Box::new(move || { let world = unsafe { &mut *(wp as *mut LoopWorld) }; world.queue.pop_front() }));
+    let handle = manager.transport_manager_handle();
+    let local = hooks::local_peer_id(&manager);
+    let mut peers: Vec<PeerId> = Vec::new();
+    for i in 0..NPEERS {
+        let p = nd.peer_id_fixed(i as u8 + 1);
+        assume(p != local);
+        hooks::add_address(&mut manager, p, peer_address(i, p), 0);
+        peers.push(p);
+    }
+    let mut tries: Vec<Try> = Vec::new();
+    let mut conns: Vec<LoopConn> = Vec::new();
+    let mut user_open = [0usize; NPEERS];        // connections the user was told about and that were not reported closed since
+    let mut inbound_pending = 0usize;
+
+    let steps = param("steps", 3);
+    // `warm` leading steps are fixed: peer 0, 1, .. is dialed by address (histories that start with dials in flight)
+    let warm = param("warm_dials", 0);
+    for step in 0..(steps + warm) {
+        world.calls.clear();
+        world.refused.clear();
+        let mut new_conn: Option<ConnectionId> = None;
+        let mut inbound_probe: Option<(ConnectionId, usize)> = None;
+        let mut dial_request: Option<(usize, bool, bool, bool)> = None;    // (peer, by address, peer was idle, outbound capacity)
+        let forced = step < warm;
+        match if forced { 0 } else { nd.choose("event", 6) } {
+            0 => {
+                let i = if forced { (step as usize) % NPEERS } else { nd.choose("peer", NPEERS as u64) as usize };
+                let by_address = if forced { true } else { nd.bool("by_address") };
+                let idle = hooks::can_dial_now(&manager, &peers[i]);
+                let capacity = match max_out { None => true, Some(m) => hooks::counted(&manager).1 < m };
+                let accepted = if by_address { handle.dial_address(peer_address(i, peers[i])).is_ok() } else { handle.dial(&peers[i]).is_ok() };
+                if accepted { cover("c05l.dial.accepted"); dial_request = Some((i, by_address, idle, capacity)); } else { cover("c05l.dial.refused"); }
+            }
+            1 => {
+                let open: Vec<usize> = (0..tries.len()).filter(|k| tries[*k].stage == 0).collect();
+                if open.is_empty() { assume(false); }
+                let k = open[nd.choose("which_open", open.len() as u64) as usize];
+                if nd.bool("open_succeeds") {
+                    cover("c05l.open.opened");
+                    world.queue.push_back(ScriptedEvent::ConnectionOpened { connection_id: tries[k].id, address: tries[k].addresses[0].clone() });
+                    tries[k].stage = 1;
+                } else {
+                    cover("c05l.open.failed");
+                    world.queue.push_back(ScriptedEvent::OpenFailure { connection_id: tries[k].id, addresses: tries[k].addresses.clone() });
+                    tries[k].stage = 2;
+                }
+            }
+            2 => {
+                let dialing: Vec<usize> = (0..tries.len()).filter(|k| tries[*k].stage == 1).collect();
+                if dialing.is_empty() { assume(false); }
+                let k = dialing[nd.choose("which_dial", dialing.len() as u64) as usize];
+                let address = tries[k].addresses[0].clone();
+                tries[k].stage = 2;
+                if nd.bool("dial_succeeds") {
+                    cover("c05l.dial.established");
+                    let endpoint = Endpoint::Dialer { address, connection_id: tries[k].id };
+                    world.queue.push_back(ScriptedEvent::ConnectionEstablished { peer: peers[tries[k].peer], endpoint });
+                    conns.push(LoopConn { id: tries[k].id, peer: tries[k].peer, inbound: false, live: false, announced: false });
+                    new_conn = Some(tries[k].id);
+                } else {
+                    cover("c05l.dial.failed");
+                    world.queue.push_back(ScriptedEvent::DialFailure { connection_id: tries[k].id, address });
+                }
+            }
+            3 => {
+                let id = hooks::next_connection_id(&mut manager);
+                world.queue.push_back(ScriptedEvent::PendingInboundConnection { connection_id: id });
+                inbound_probe = Some((id, hooks::counted(&manager).0));
+            }
+            4 => {
+                if inbound_pending == 0 { assume(false); }
+                inbound_pending -= 1;
+                let i = nd.choose("peer", NPEERS as u64) as usize;
+                let id = hooks::next_connection_id(&mut manager);
+                let address = Multiaddr::empty().with(Protocol::Ip4(Ipv4Addr::new(10, 0, 1, i as u8 + 1))).with(Protocol::Tcp(5000));
+                world.queue.push_back(ScriptedEvent::ConnectionEstablished { peer: peers[i], endpoint: Endpoint::Listener { address, connection_id: id } });
+                conns.push(LoopConn { id, peer: i, inbound: true, live: false, announced: false });
+                new_conn = Some(id);
+                cover("c05l.inbound.established");
+            }
+            _ => {
+                let live: Vec<usize> = (0..conns.len()).filter(|k| conns[*k].live).collect();
+                if live.is_empty() { assume(false); }
+                let k = live[nd.choose("which_conn", live.len() as u64) as usize];
+                conns[k].live = false;
+                check("c07l.manager-accepts-the-closed-report", hooks::report_connection_closed(&manager, peers[conns[k].peer], conns[k].id));
+                cover("c05l.closed");
+            }
+        }
+
+        // ---- run the manager until it has nothing more to do; every user-visible event goes through the ledger
+        let mut spins = 0;
+        loop {
+            spins += 1;
+            if spins > 8 { check("c05l.manager-loop-quiesces", false); return; }
+            match hooks::next_now(&mut manager) {
+                LoopOutcome::Pending => break,
+                LoopOutcome::Ended => { check("c05l.manager-loop-keeps-running", false); return; }
+                LoopOutcome::Other => { check("c05l.only-documented-user-events", false); return; }
+                LoopOutcome::ConnectionEstablished { peer, endpoint } => {
+                    cover("c05l.user.established");
+                    let id = endpoint.connection_id();
+                    match conns.iter().position(|c| c.id == id) {
+                        None => { check("c07l.established-event-belongs-to-a-connection", false); return; }
+                        Some(k) => {
+                            check("c07l.established-event-names-the-peer", peers[conns[k].peer] == peer);
+                            check("c07l.established-event-is-not-repeated", !conns[k].announced);
+                            conns[k].announced = true;
+                            user_open[conns[k].peer] += 1;
+                        }
+                    }
+                    if let Some(t) = tries.iter_mut().find(|t| t.id == id) {
+                        check("c05l.never-both-failure-and-connection-for-one-attempt", t.failures == 0);
+                        t.announced = true;
+                    }
+                }
+                LoopOutcome::ConnectionClosed { peer, .. } => {
+                    cover("c05l.user.closed");
+                    let i = if peer == peers[0] { 0 } else { 1 };
+                    check("c07l.closed-event-names-a-known-peer", peer == peers[i]);
+                    check("c07l.closed-event-only-after-an-established-event", user_open[i] > 0);
+                    check("c07l.closed-event-only-when-the-last-connection-is-gone", !conns.iter().any(|c| c.peer == i && c.live));
+                    user_open[i] = 0;
+                }
+                LoopOutcome::DialFailure { connection_id, address } => {
+                    cover("c05l.user.dial-failure");
+                    match tries.iter_mut().find(|t| t.id == connection_id) {
+                        None => { check("c05l.failure-report-belongs-to-an-attempt", false); return; }
+                        Some(t) => {
+                            check("c05l.failure-report-names-the-dialed-address", t.addresses.contains(&address));
+                            check("c05l.no-duplicate-failure-report", t.failures == 0);
+                            check("c05l.never-both-failure-and-connection-for-one-attempt", !t.announced);
+                            check("c05l.failure-report-only-after-the-transport-gave-up", t.stage == 2);
+                            t.failures += 1;
+                        }
+                    }
+                }
+                LoopOutcome::OpenFailure { connection_id, addresses } => {
+                    cover("c05l.user.open-failure");
+                    match tries.iter_mut().find(|t| t.id == connection_id) {
+                        None => { check("c05l.failure-report-belongs-to-an-attempt", false); return; }
+                        Some(t) => {
+                            check("c05l.open-failure-names-the-dialed-addresses", !addresses.is_empty() && addresses.iter().all(|a| t.addresses.contains(a)));
+                            check("c05l.no-duplicate-failure-report", t.failures == 0);
+                            check("c05l.never-both-failure-and-connection-for-one-attempt", !t.announced);
+                            check("c05l.failure-report-only-after-the-transport-gave-up", t.stage == 2);
+                            t.failures += 1;
+                        }
+                    }
+                }
+            }
+        }
+        check("c05l.transport-events-are-consumed", world.queue.is_empty());
+
+        // ---- what the manager asked of the transport in this step
+        let mut accept_refused = false;
+        let mut notify_refused = false;
+        for c in world.calls.clone().iter() {
+            match c {
+                TransportCall::Open(id) => {
+                    if let Some((i, _, _, _)) = dial_request {
+                        tries.push(Try { id: *id, peer: i, addresses: vec![peer_address(i, peers[i])], stage: 0, failures: 0, announced: false, excused: false, limit_rejected: false, settled: false });
+                    } else { check("c05l.open-only-on-request", false); }
+                }
+                TransportCall::Dial(id) => {
+                    if let Some((i, _, _, _)) = dial_request {
+                        tries.push(Try { id: *id, peer: i, addresses: vec![peer_address(i, peers[i])], stage: 1, failures: 0, announced: false, excused: false, limit_rejected: false, settled: false });
+                    } else { check("c05l.dial-only-on-request", false); }
+                }
+                // only raw open attempts are cancelled for good (the manager also "cancels" the other transports' share of an
+                // attempt right before it negotiates the opened connection)
+                TransportCall::Cancel(id) => { if let Some(t) = tries.iter_mut().find(|t| t.id == *id) { if t.stage == 0 { t.stage = 3; } } }
+                TransportCall::Accept(id) => { if Some(*id) != new_conn { check("c06l.accept-only-the-new-connection", false); } }
+                TransportCall::Notify(id) => { if let Some(c) = conns.iter_mut().find(|c| c.id == *id) { c.live = true; } }
+                TransportCall::Reject(id) => { if Some(*id) != new_conn { check("c06l.reject-only-the-new-connection", false); } }
+                _ => {}
+            }
+        }
+        if let Some(id) = new_conn {
+            let accept_called = world.calls.iter().any(|c| *c == TransportCall::Accept(id));
+            let notify_called = world.calls.iter().any(|c| *c == TransportCall::Notify(id));
+            let rejected = world.calls.iter().any(|c| *c == TransportCall::Reject(id));
+            let k = conns.iter().position(|c| c.id == id).expect("pushed above");
+            accept_refused = world.refused.contains(&TransportCall::Accept(id));
+            notify_refused = world.refused.contains(&TransportCall::Notify(id));
+            if accept_refused || notify_refused { conns[k].live = false; cover("c05l.accept-rollback"); }
+            check("c06l.new-connection-is-accepted-or-rejected", accept_called != rejected);
+            check("c06l.notification-follows-a-granted-accept", notify_called == (accept_called && !accept_refused));
+            if rejected {
+                cover("c05l.rejected");
+                let peer_live = conns.iter().filter(|c| c.peer == conns[k].peer && c.live).count();
+                let (cin, cout) = hooks::counted(&manager);
+                let limit_hit = if conns[k].inbound { matches!(max_in, Some(m) if cin >= m) } else { matches!(max_out, Some(m) if cout >= m) };
+                let has_dial = tries.iter().any(|t| t.peer == conns[k].peer && t.stage < 2);
+                check("c06l.reject-only-for-a-reason", limit_hit || peer_live >= 2 || (conns[k].inbound && peer_live == 1 && has_dial));
+                if limit_hit && !conns[k].inbound { if let Some(t) = tries.iter_mut().find(|t| t.id == id) { t.limit_rejected = true; cover("c05l.rejected.outbound-limit"); } }
+            }
+            if accept_called && notify_called && !notify_refused {
+                check("c07l.accepted-connection-is-announced-to-the-user", conns[k].announced);
+            }
+            if accept_refused || notify_refused {
+                // shutdown-type faults of the environment: the attempt itself, and attempts the manager cancelled in favour
+                // of the connection it then could not hand over, are outside the "never silent" claim
+                if let Some(t) = tries.iter_mut().find(|t| t.id == id) { t.excused = true; }
+                for c in world.calls.iter() {
+                    if let TransportCall::Cancel(cancelled) = c { if let Some(t) = tries.iter_mut().find(|t| t.id == *cancelled) { t.excused = true; } }
+                }
+            }
+        }
+        if let Some((id, in_before)) = inbound_probe {
+            let admitted = world.calls.iter().any(|c| *c == TransportCall::AcceptPending(id));
+            let refused = world.calls.iter().any(|c| *c == TransportCall::RejectPending(id));
+            check("c06l.pending-inbound-is-answered", admitted != refused);
+            check("c06l.pending-inbound-admitted-iff-below-limit", admitted == match max_in { None => true, Some(m) => in_before < m });
+            if admitted { inbound_pending += 1; cover("c05l.inbound.admitted"); }
+        }
+        if let Some((_, by_address, idle, capacity)) = dial_request {
+            let attempts = world.calls.iter().filter(|c| matches!(c, TransportCall::Open(_) | TransportCall::Dial(_))).count();
+            if idle && capacity { check("c05l.accepted-request-for-an-idle-peer-is-attempted", attempts == 1); }
+            if !idle { check("c05l.request-while-busy-makes-no-second-attempt", attempts == 0); }
+            if !capacity { check("c06l.no-attempt-without-outbound-capacity", attempts == 0); }
+            let _ = by_address;
+        }
+        // a refused negotiate ends the attempt (the raw connection vanished)
+        for c in world.calls.iter() {
+            if let TransportCall::Negotiate(id) = c {
+                let st = hooks::pending_peer(&manager, id);
+                if st.is_none() { if let Some(t) = tries.iter_mut().find(|t| t.id == *id) { if t.stage == 1 { t.stage = 2; t.excused = true; cover("c05l.negotiate-refused"); } } }
+            }
+        }
+
+        // ---- ledger: every concluded attempt has exactly one outcome, never silence
+        let silence_check = param("silence_check", 1) == 1;
+        for t in tries.iter_mut() {
+            check("c05l.at-most-one-failure-report", t.failures <= 1);
+            if t.stage >= 2 && !t.settled {
+                t.settled = true;
+                // the outcome: this attempt's failure report, or a connection with that peer known to the user
+                let connected = t.announced || user_open[t.peer] > 0;
+                if silence_check && !t.excused {
+                    if t.limit_rejected {
+                        check("c05l.dial-turned-away-by-the-outbound-limit-is-reported", t.failures == 1 || connected);
+                    } else {
+                        check("c05l.concluded-attempt-is-never-silent", t.failures == 1 || connected);
+                    }
+                }
+            }
+        }
+        // ---- user view vs. connections
+        for i in 0..NPEERS {
+            let live = conns.iter().filter(|c| c.peer == i && c.live).count();
+            check("c06l.at-most-two-connections-per-peer", live <= 2);
+            if live == 0 { check("c07l.closed-event-is-emitted-when-the-last-connection-is-gone", user_open[i] == 0); }
+            let st = hooks::peer_state(&manager, &peers[i]).expect("peer context exists");
+            let mine: Vec<ConnectionId> = conns.iter().filter(|c| c.peer == i && c.live).map(|c| c.id).collect();
+            check("c06l.peer-state-tracks-exactly-the-live-connections", same_ids(&established(&st), &mine));
+            let outstanding: Vec<ConnectionId> = tries.iter().filter(|t| t.peer == i && t.stage < 2).map(|t| t.id).collect();
+            let state_dial = match &st { PeerState::Opening { connection_id, .. } => Some(*connection_id), other => dial_id(other) };
+            if let Some(d) = state_dial { check("c05l.no-wedge: dial id in the peer state has an outstanding attempt", outstanding.contains(&d)); }
+            if mine.is_empty() && outstanding.is_empty() { check("c05l.idle-peer-is-dialable", hooks::can_dial_now(&manager, &peers[i])); }
+        }
+        let (cin, cout) = hooks::counted(&manager);
+        if let Some(m) = max_in { check("c06l.inbound-limit-never-exceeded", cin <= m); check("c06l.inbound-count-is-live-inbound", cin == conns.iter().filter(|c| c.live && c.inbound).count()); }
+        if let Some(m) = max_out { check("c06l.outbound-limit-never-exceeded", cout <= m); check("c06l.outbound-count-is-live-outbound", cout == conns.iter().filter(|c| c.live && !c.inbound).count()); }
+        check("c05l.pending-map-has-no-orphans", hooks::pending_len(&manager) == tries.iter().filter(|t| t.stage < 2).count());
+    }
 }
 
 // ------------------------------------------------------------------------------------------ C15 value / provider lookups
@@ -1542,9 +1864,10 @@ use litep2p::protocol::libp2p::kademlia::ContentProvider;
 /// C17 (providers half): bounds on keys / providers per key / addresses per provider, freshness, distance order,
 /// closest-retained and update-in-place, against a reference model.
 pub fn c17_store_providers(nd: &mut Nondet) {
-    let max_keys = nd.choose("max_provider_keys", 3) as usize;
-    let max_per_key = 1 + nd.choose("max_providers_per_key", 2) as usize;
-    let max_addrs = nd.choose("max_provider_addresses", 3) as usize;
+    let inductive = param("arbitrary_start", 0) == 1;
+    let max_keys = if inductive { 1 + nd.choose("max_provider_keys", 2) as usize } else { nd.choose("max_provider_keys", 3) as usize };
+    let max_per_key = if inductive { 1 + 2 * nd.choose("max_providers_per_key", 2) as usize } else { 1 + nd.choose("max_providers_per_key", 2) as usize };
+    let max_addrs = if inductive { 2 * nd.choose("max_provider_addresses", 2) as usize } else { nd.choose("max_provider_addresses", 3) as usize };
     let ttl = Duration::from_secs(1000);
     let config = MemoryStoreConfig {
         max_records: 1, max_record_size_bytes: 8, max_provider_keys: max_keys, max_provider_addresses: max_addrs,
@@ -1552,26 +1875,72 @@ pub fn c17_store_providers(nd: &mut Nondet) {
     };
     let local = nd.peer_id_fixed(0);
     let mut store = MemoryStore::with_config(local, config);
-    let provider_ids: [u8; 3] = [1, 2, 3];
-    let keys = [RecordKey::from(vec![0u8]), RecordKey::from(vec![1u8])];
+    let provider_ids: [u8; 4] = [1, 2, 3, 0];       // index 3 is the local node (announced through put_local_provider)
+    let mut local_keys: Vec<usize> = Vec::new();
+    // relative to key [2] the local node (id 0) is the closest of the four providers, relative to key [1] the third closest
+    let keys = [RecordKey::from(vec![2u8]), RecordKey::from(vec![1u8])];
     // reference: per key the providers sorted by distance to the key: (peer index, addresses, expired)
     let mut model: Vec<(usize, Vec<(usize, usize, bool)>)> = Vec::new();
     let closer = |k: usize, a: usize, b: usize, nd: &mut Nondet| -> bool {
         let key = Key::new(keys[k].clone());
         Key::from(nd.peer_id_fixed(provider_ids[a])).distance(&key) < Key::from(nd.peer_id_fixed(provider_ids[b])).distance(&key)
     };
+    if param("arbitrary_start", 0) == 1 {
+        // inductive form: any store that satisfies the representation invariant (bounds hold, every list sorted by
+        // distance without duplicates, a key the local node provides is registered as such)
+        for k in 0..1 {
+            if model.len() >= max_keys || !nd.bool("key_present") { continue; }
+            // per list: one address count and one freshness for all members (keeps the pre-state space small)
+            let list_naddr = std::cmp::min(2 * nd.choose("stored_addresses", 2) as usize, max_addrs);
+            let list_expired = nd.bool("expired");
+            let only_first = k == 1;          // the second key holds at most its closest provider
+            // members in distance order: sort the universe by distance to this key, then pick a subset
+            let mut order: Vec<usize> = vec![0, 1, 2, 3];
+            let mut i = 1;
+            while i < 4 { let mut j = i; while j > 0 && closer(k, order[j], order[j - 1], nd) { order.swap(j, j - 1); j -= 1; } i += 1; }
+            let mut list: Vec<(usize, usize, bool)> = Vec::new();
+            for who in order.iter() {
+                if list.len() < max_per_key && !(only_first && !list.is_empty()) && nd.bool("member") {
+                    let naddr = if *who == 3 { 0 } else { list_naddr };
+                    let expired = list_expired;
+                    let peer = nd.peer_id_fixed(provider_ids[*who]);
+                    let mut addresses = Vec::new();
+                    for j in 0..naddr { addresses.push(kad_address(j as u8 + 1, peer)); }
+                    store.push_provider_verif(keys[k].clone(), peer, addresses, expired, *who == 3);
+                    if *who == 3 { local_keys.push(k); }
+                    list.push((*who, naddr, expired));
+                }
+            }
+            if !list.is_empty() { model.push((k, list)); }
+        }
+        cover("c17p.arbitrary-start");
+    }
     let steps = param("steps", 3);
     for _ in 0..steps {
         let k = nd.choose("key", 2) as usize;
-        match nd.choose("op", 3) {
-            0 => {
-                let who = nd.choose("provider", 3) as usize;
+        let op = nd.choose("op", 5);
+        match op {
+            4 => {
+                // the local node stops providing: only while its record is still stored (otherwise the library
+                // logs an error and hits a debug assertion)
+                let stored = model.iter().any(|(kk, list)| *kk == k && list.iter().any(|(w, _, _)| *w == 3));
+                if !local_keys.contains(&k) || !stored { assume(false); }
+                store.remove_local_provider(keys[k].clone());
+                local_keys.retain(|x| *x != k);
+                let pos = model.iter().position(|(kk, _)| *kk == k).expect("stored");
+                model[pos].1.retain(|(w, _, _)| *w != 3);
+                if model[pos].1.is_empty() { model.remove(pos); }
+                cover("c17p.remove-local");
+            }
+            0 | 3 => {
+                let local = op == 3;
+                let who = if local { 3 } else { nd.choose("provider", 3) as usize };
                 let peer = nd.peer_id_fixed(provider_ids[who]);
                 // quick tier: none or more than any bound; thorough tier: 0..=3
-                let n = if param("all_address_counts", 0) == 1 { nd.choose("n_addresses", 4) as usize } else { 3 * nd.choose("n_addresses", 2) as usize };
+                let n = if local { 0 } else if param("all_address_counts", 0) == 1 { nd.choose("n_addresses", 4) as usize } else { 3 * nd.choose("n_addresses", 2) as usize };
                 let mut addresses = Vec::new();
                 for j in 0..n { addresses.push(kad_address(j as u8 + 1, peer)); }
-                let accepted = store.put_provider(keys[k].clone(), ContentProvider { peer, addresses });
+                let accepted = if local { store.put_local_provider(keys[k].clone(), Quorum::One) } else { store.put_provider(keys[k].clone(), ContentProvider { peer, addresses }) };
                 let stored_addrs = std::cmp::min(n, max_addrs);
                 // reference semantics
                 let expect = match model.iter().position(|(kk, _)| *kk == k) {
@@ -1593,7 +1962,7 @@ pub fn c17_store_providers(nd: &mut Nondet) {
                     }
                 };
                 check("c17p.put-accepted-as-the-reference-says", accepted == expect);
-                cover("c17p.put");
+                if local { if accepted && !local_keys.contains(&k) { local_keys.push(k); } cover("c17p.put-local"); } else { cover("c17p.put"); }
             }
             1 => {
                 let got: Vec<(PeerId, usize)> = store.get_providers(&keys[k]).into_iter().map(|p| (p.peer, p.addresses.len())).collect();
@@ -2101,14 +2470,17 @@ impl futures::io::AsyncRead for LinkEnd {
     fn poll_read(mut self: Pin<&mut Self>, _cx: &mut Context<'_>, buf: &mut [u8]) -> Poll<std::io::Result<usize>> {
         let nd = unsafe { &mut *self.nd };
         let link = unsafe { &mut *self.link };
-        let scripted = self.scripted();
+        // a scripted answer is only spent where it makes a difference: when there is something to deliver
+        let nothing = if self.is_a { link.ba.len() == link.ba_read } else { link.ab.len() == link.ab_read };
+        let scripted = if nothing { false } else { self.scripted() };
         if scripted && nd.bool("read_pending") { return Poll::Pending; }
         let (queue, pos, peer_closed) = if self.is_a { (&link.ba, &mut link.ba_read, link.b_closed) } else { (&link.ab, &mut link.ab_read, link.a_closed) };
         let left = queue.len() - *pos;
         if left == 0 { return if peer_closed { Poll::Ready(Ok(0)) } else { Poll::Pending }; }
         let avail = if left < buf.len() { left } else { buf.len() };
         if avail == 0 { return Poll::Ready(Ok(0)); }
-        let n = if scripted && nd.bool("read_one_byte") { 1 } else { avail };
+        // scripted chunking: a single byte, two bytes (e.g. exactly a length prefix) or everything available
+        let n = if scripted { match nd.choose("read_chunk", 3) { 0 => 1, 1 => if avail >= 2 { 2 } else { 1 }, _ => avail } } else { avail };
         let p = *pos;
         buf[..n].copy_from_slice(&queue[p..p + n]);
         *pos += n;
@@ -2272,7 +2644,10 @@ pub fn c13_request_ledger(nd: &mut Nondet) {
                 if connection.is_some() { assume(false); }
                 let id = ConnectionId::from(next_connection);
                 next_connection += 1;
-                check("c13.connection-is-handled", rr::connection_established(&mut kernel, peer, id));
+                // the connection task may be busy: its command channel takes only `capacity` substream requests
+                let capacity = 1 + 15 * nd.choose("connection_busy", 2) as usize;
+                let handled = rr::connection_established_with_capacity(&mut kernel, peer, id, capacity);
+                check("c13.connection-is-handled", handled);
                 connection = Some(id);
                 cover("c13.connected");
             }
@@ -2523,10 +2898,11 @@ pub fn c02_noise_stream(nd: &mut Nondet) {
     let (dialer_cipher, listener_cipher) = noise_hooks::cipher_pair();
     let mut link = Link { ab: Vec::new(), ab_read: 0, ba: Vec::new(), ba_read: 0, a_closed: false, b_closed: false };
     let lp = &mut link as *mut Link;
-    let mut budget = param("io_budget", 2);
-    let bp = &mut budget as *mut u64;
-    let end_a = LinkEnd { link: lp, is_a: true, nd: nd as *mut Nondet, budget: bp };
-    let end_b = LinkEnd { link: lp, is_a: false, nd: nd as *mut Nondet, budget: bp };
+    // separate budgets of scripted carrier answers for the writer's carrier writes/flushes and the reader's carrier reads
+    let mut write_budget = param("write_budget", 1);
+    let mut read_budget = param("read_budget", 2);
+    let end_a = LinkEnd { link: lp, is_a: true, nd: nd as *mut Nondet, budget: &mut write_budget as *mut u64 };
+    let end_b = LinkEnd { link: lp, is_a: false, nd: nd as *mut Nondet, budget: &mut read_budget as *mut u64 };
     let read_ahead = 1 + nd.choose("read_ahead_frames", 2) as usize;
     let write_buffers = 1 + nd.choose("write_buffer_frames", 2) as usize;
     let mut writer = noise_hooks::socket(end_a, dialer_cipher, read_ahead, write_buffers);
@@ -2536,7 +2912,7 @@ pub fn c02_noise_stream(nd: &mut Nondet) {
     let big = param("big_frames", 0) == 1;
     let (first, second, reader_buf): (usize, usize, usize) = if big {
         let w = match nd.choose("write_size", 5) { 0 => 65519usize, 1 => 65520, 2 => 65521, 3 => 65536, _ => 131040 };
-        let extra = nd.choose("second_write", 2) as usize;     // 0: none, 1: one more byte
+        let extra = match nd.choose("second_write", 3) { 0 => 0usize, 1 => 1, _ => 70000 };   // none, one byte, another multi-frame write
         let r = match nd.choose("reader_buffer", 3) { 0 => 65520usize, 1 => 70000, _ => 16384 };
         (w, extra, r)
     } else {
@@ -2580,7 +2956,10 @@ pub fn c02_noise_stream(nd: &mut Nondet) {
                 delivered += n;
                 cover("c02.read");
             }
-            Poll::Ready(Err(_)) => { check("c02.read-on-a-healthy-stream-succeeds", false); return; }
+            // an error and a reader that never completes are the same failure here: what was written does not arrive.
+            // (Which of the two a desynchronised reader runs into depends on ciphertext bytes, which differ between
+            // the cipher model and the real cipher.)
+            Poll::Ready(Err(_)) => { check("c02.everything-written-and-flushed-is-delivered", false); return; }
             Poll::Pending => { cover("c02.read-pending"); }
         }
     }
@@ -2640,4 +3019,95 @@ pub fn c02_noise_attacks(nd: &mut Nondet) {
         }
     }
     check("c02a.everything-before-the-attack-is-delivered", delivered == intact);
+}
+
+// ------------------------------------------------------------------------------------------ C15 one step of register_response from an arbitrary state
+/// C15 (inductive form): one reply handled by any of the three lookup state machines from an arbitrary state:
+/// the replying peer becomes queried, every advertised peer that is new (not queried, not pending, not the local node)
+/// becomes a candidate - and nothing else changes; find-node keeps the closest answered peers.
+pub fn c15_response_step(nd: &mut Nondet) {
+    const N: usize = 4;
+    let net = small_network(nd, N);
+    let kind = nd.choose("kind", 3);
+    // roles: 0 unknown, 1 candidate, 2 pending, 3 queried (answered), 4 queried (failed)
+    let mut role = [0u64; N];
+    let active = param("active_peers", 4) as usize;       // peers beyond this index stay unknown and unadvertised
+    for i in 0..N {
+        role[i] = if i < active { nd.choose("role", 5) } else { 0 };
+        if role[i] != 0 { assume(net.ids[i] != net.local); }
+    }
+    let pending: Vec<usize> = (0..N).filter(|i| role[*i] == 2).collect();
+    if pending.is_empty() { assume(false); }
+    let who = pending[nd.choose("who", pending.len() as u64) as usize];
+    let mut advertised: Vec<KademliaPeer> = Vec::new();
+    let mut adv = [false; N];
+    for i in 0..active { if nd.bool("advertise") { advertised.push(net.peers[i].clone()); adv[i] = true; } }
+    let rkey = RecordKey::from(vec![7u8]);
+    let candidates_in: VecDeque<KademliaPeer> = (0..N).filter(|i| role[*i] == 1).map(|i| net.peers[i].clone()).collect();
+
+    // expected post-state per peer
+    let expect_candidate = |i: usize| -> bool { role[i] == 1 || (adv[i] && role[i] == 0 && net.ids[i] != net.local) };
+    let expect_pending = |i: usize| -> bool { role[i] == 2 && i != who };
+    let expect_queried = |i: usize| -> bool { role[i] == 3 || role[i] == 4 || i == who };
+
+    match kind {
+        0 => {
+            let replication = nd.usize("replication");
+            assume(replication >= 1 && replication <= 3);
+            let target = Key::from_bytes_verif(key_bytes(0), nd.peer_id("target"));
+            let config = FindNodeConfig { local_peer_id: net.local, replication_factor: replication, parallelism_factor: 3, query: QueryId(0), target: target.clone() };
+            let mut ctx = FindNodeContext::new(config, candidates_in);
+            let now = Instant::now();
+            let answered: Vec<usize> = (0..N).filter(|i| role[*i] == 3).collect();
+            for i in 0..N {
+                match role[i] { 2 => { ctx.pending.insert(net.ids[i], (net.peers[i].clone(), now)); } 3 | 4 => { ctx.queried.insert(net.ids[i]); } _ => {} }
+            }
+            for (n, i) in answered.iter().enumerate() { if n < replication { ctx.responses.insert(target.distance(net.peers[*i].key_verif()), net.peers[*i].clone()); } }
+            ctx.rebuild_accounting_verif();
+            ctx.register_response(net.ids[who], advertised);
+            cover("c15x.find-node");
+            for i in 0..N {
+                check("c15x.candidates-after-reply", ctx.candidates.values().any(|p| p.peer_id_verif() == net.ids[i]) == expect_candidate(i));
+                check("c15x.pending-after-reply", ctx.pending.contains_key(&net.ids[i]) == expect_pending(i));
+                check("c15x.queried-after-reply", ctx.queried.contains(&net.ids[i]) == expect_queried(i));
+            }
+            // responses: the `replication` closest among the answered peers and the one that just answered
+            let mut all: Vec<usize> = answered.iter().copied().filter(|i| answered.iter().position(|x| x == i).unwrap() < replication).collect();
+            all.push(who);
+            all.sort();
+            all.truncate(replication);
+            let got: Vec<PeerId> = ctx.responses.values().map(|p| p.peer_id_verif()).collect();
+            let want: Vec<PeerId> = all.iter().map(|i| net.ids[*i]).collect();
+            check("c15x.responses-are-the-closest-answered-peers", got == want);
+        }
+        1 => {
+            let config = GetRecordConfig { local_peer_id: net.local, known_records: 0, quorum: Quorum::All, replication_factor: 3, parallelism_factor: 3,
+                                           query: QueryId(1), target: Key::from_bytes_verif(key_bytes(0), rkey.clone()) };
+            let mut ctx = GetRecordContext::new(config, candidates_in, false);
+            for i in 0..N { match role[i] { 2 => { ctx.pending.insert(net.ids[i], net.peers[i].clone()); } 3 | 4 => { ctx.queried.insert(net.ids[i]); } _ => {} } }
+            let with_record = nd.bool("with_record");
+            let record = if with_record { Some(Record::new(rkey.clone(), vec![2u8])) } else { None };
+            ctx.register_response(net.ids[who], record, advertised);
+            cover("c15x.get-record");
+            for i in 0..N {
+                check("c15x.candidates-after-reply", ctx.candidates.values().any(|p| p.peer_id_verif() == net.ids[i]) == expect_candidate(i));
+                check("c15x.pending-after-reply", ctx.pending.contains_key(&net.ids[i]) == expect_pending(i));
+                check("c15x.queried-after-reply", ctx.queried.contains(&net.ids[i]) == expect_queried(i));
+            }
+            check("c15x.record-kept-once", ctx.found_records == if with_record { 1 } else { 0 } && ctx.records.len() == ctx.found_records);
+        }
+        _ => {
+            let config = GetProvidersConfig { local_peer_id: net.local, parallelism_factor: 3, query: QueryId(2),
+                                              target: Key::from_bytes_verif(key_bytes(0), rkey.clone()), known_providers: Vec::new() };
+            let mut ctx = GetProvidersContext::new(config, candidates_in);
+            for i in 0..N { match role[i] { 2 => { ctx.pending.insert(net.ids[i], net.peers[i].clone()); } 3 | 4 => { ctx.queried.insert(net.ids[i]); } _ => {} } }
+            ctx.register_response(net.ids[who], Vec::new(), advertised);
+            cover("c15x.get-providers");
+            for i in 0..N {
+                check("c15x.candidates-after-reply", ctx.candidates.values().any(|p| p.peer_id_verif() == net.ids[i]) == expect_candidate(i));
+                check("c15x.pending-after-reply", ctx.pending.contains_key(&net.ids[i]) == expect_pending(i));
+                check("c15x.queried-after-reply", ctx.queried.contains(&net.ids[i]) == expect_queried(i));
+            }
+        }
+    }
 }
